@@ -129,7 +129,7 @@ func main() {
 				d2 := qt.Dump(q2)
 				for t := range progs {
 					for _, qi := range progs[t] {
-						l.want = append(l.want, render(l.menu[qi].run(q2, noYield)))
+						l.want = append(l.want, render(l.menu[qi].call(q2, noYield, make([]orb.Pointer, len(progs)*arenaWindow), t)))
 					}
 				}
 				l.soloWrites = ""
@@ -147,6 +147,8 @@ func main() {
 			l.cur = s
 			defer func() { l.cur = nil }()
 			got := make([]string, len(l.want))
+			raw := make([][]orb.Pointer, len(l.want)) // the slices the queries returned, looked at again when all are done
+			arena := make([]orb.Pointer, nth*arenaWindow)
 			bodies := make([]func(), nth)
 			idx := 0
 			inQuery := make([]bool, nth)
@@ -157,7 +159,8 @@ func main() {
 				bodies[t] = func() {
 					for j, qi := range progs[t] {
 						inQuery[t] = true
-						got[base+j] = render(l.menu[qi].run(q, s.Yield))
+						raw[base+j] = l.menu[qi].call(q, s.Yield, arena, t)
+						got[base+j] = render(raw[base+j])
 						inQuery[t] = false
 						s.Yield()
 					}
@@ -212,6 +215,15 @@ func main() {
 			for i := range got {
 				if got[i] != l.want[i] {
 					c.Failf("result-differs", "query #%d returned %s concurrently but %s alone | %s", i, got[i], l.want[i], desc())
+					break
+				}
+			}
+			// a result belongs to its caller until the caller reuses the buffer: the last result of every goroutine
+			// must still read the same when all goroutines are done
+			for t, i := 0, 0; t < len(progs); t++ {
+				i += len(progs[t])
+				if now := render(raw[i-1]); now != got[i-1] {
+					c.Failf("result-overwritten", "the last result of goroutine %d read %s when it was returned and %s after the other goroutines had finished | %s", t, got[i-1], now, desc())
 					break
 				}
 			}
